@@ -219,3 +219,32 @@ func VerifC07Addrs() {
 		c07RoundTrip(rec)
 	}
 }
+
+// VerifC07IDN: a line whose middle name is an internationalised name with raw
+// and punycode lengths on opposite sides of the 253-byte limit (3..5 labels of
+// 50 two-byte letters: 303..505 raw bytes, far fewer in punycode; or 29..32
+// two-byte labels: short raw, 232..256 punycode bytes); names are valid iff
+// ValidateDomainName says so, whatever their raw length.
+func VerifC07IDN() {
+	name := ""
+	if verifrt.Bool2() {
+		for k := 3 + verifrt.Choice(3); k > 0; k-- {
+			for j := 0; j < 50; j++ {
+				name += "а"
+			}
+			name += "."
+		}
+	} else {
+		for k := 29 + verifrt.Choice(4); k > 0; k-- {
+			name += "я."
+		}
+	}
+	c := verifrt.Byte()
+	verifrt.Assume(c < 0x80 && c != '.' && c != 'x' && c != ' ' && c != '\t' && c != '#')
+	name += "c" + string([]byte{c})
+	line := []byte("1.2.3.4 first.example " + name + " last.example")
+	rec, ok := c07Check(line)
+	if ok {
+		c07RoundTrip(rec)
+	}
+}
